@@ -3,6 +3,7 @@ import warnings
 import numpy as np
 from Solverz.solvers.daesolver.utilities import *
 from .ntrp15s import ntrp15s
+from Solverz.solvers.laesolver import solve as solve_lin
 
 
 # verification hook (SOLVERZ_VERIF=1): one record per accepted step; no effect when the variable is unset
@@ -137,6 +138,19 @@ def ode15s(dae: nDAE,
         if absh * rh > 1:
             absh = 1 / rh
         absh = np.maximum(absh, hmin)
+
+        if not opt.normcontrol and np.unique(dae.M.nonzero()[0]).size == vsize:
+            # Not a DAE: the error of BDF1 is 0.5*h^2*y''(t), so the optimal h follows from y'' = M^{-1}(f_t + f_y y')
+            # (second phase of the initial step selection of MATLAB ode15s; y'(t0) = 0 alone says nothing about y'')
+            tdel = (t0 + np.minimum(np.sqrt(uround) * np.maximum(np.abs(t0), np.abs(t0 + absh)), absh)) - t0
+            # f_t + f_y y' as one directional difference quotient of F along (1, y')
+            DfDt = solve_lin(dae.M, (dae.F(t0 + tdel, y0 + tdel * yp0, dae.p) - dae.F(t0, y0, dae.p)) / tdel)
+            stats.nfeval += 2
+            rh = 1.25 * np.sqrt(0.5 * linalg.norm(DfDt / wt, np.inf) / opt.rtol)
+            absh = np.minimum(hmax, tend - t0)
+            if absh * rh > 1:
+                absh = 1 / rh
+            absh = np.maximum(absh, hmin)
     else:
         absh = np.minimum(hmax, np.maximum(hmin, opt.hinit))
 
